@@ -212,9 +212,21 @@ impl ScopeGen<'_> {
         }
         v
     }
+    /// when the partial is named through a variable, half of the time also pass an argument of
+    /// that very name holding another partial's name: arguments are visible only inside the
+    /// partial, so the tag must still resolve the caller's value
+    fn shadow_name_variable(&mut self, name: &Expr, args: &mut Vec<(String, Expr)>) {
+        if let Expr::Var(p) = name {
+            let var = p.root.clone();
+            if var.starts_with("pn_") && self.rng.chance(1, 2) {
+                let other = self.rng.pick(&self.o.callable).clone();
+                args.push((var, Expr::str(&other)));
+            }
+        }
+    }
     fn partial_name(&mut self) -> Expr {
         let n = self.rng.pick(&self.o.callable).clone();
-        if self.o.dynamic_names && self.rng.chance(1, 5) && n != "missing" && n != "broken" {
+        if self.o.dynamic_names && self.rng.chance(1, 3) && n != "missing" && n != "broken" {
             // data binds pn_<name> to the name
             Expr::var(&format!("pn_{n}"))
         } else {
@@ -291,12 +303,14 @@ impl ScopeGen<'_> {
                 }
                 8 | 9 if !self.o.callable.is_empty() => {
                     let name = self.partial_name();
-                    let args = self.args();
+                    let mut args = self.args();
+                    self.shadow_name_variable(&name, &mut args);
                     vec![Node::Include { name, args }]
                 }
                 10 | 11 | 12 if !self.o.callable.is_empty() && self.o.allow_render => {
                     let name = self.partial_name();
-                    let args = self.args();
+                    let mut args = self.args();
+                    self.shadow_name_variable(&name, &mut args);
                     // the alias must not also be given as an argument (which one wins is not specified)
                     let free: Vec<&str> = NAMES.iter().filter(|n| !args.iter().any(|(k, _)| k == *n)).cloned().collect();
                     let mode = match (self.rng.below(4), free.is_empty()) {
